@@ -83,6 +83,10 @@ def getItem : Val → Path → Res Val
     | none => throw Err.key
   | _, _ :: _ => throw Err.type
 
+/-- `s.split('.')`: core's `String.split` on the character (about which `String.toList_split_intercalate` is PROVED in core, so that
+the join / split round trip of dot-free keys is a theorem - Props/C15 `splitDots_intercalate`; review v2 C15) -/
+def splitDots (s : String) : List String := (s.split '.').toList.map (·.copy)
+
 /-- the dotted fallback of `dictattr.__getitem__` (src/pyg_base/_dictattr.py:183-188) for a missing string key: walk
 `dict(res)[k]` over the parts of `key.split('.')` with plain dict lookups.  On a leaf `dict(leaf)` is python's dict
 constructor: `dict('')` and `dict([])` are `{}` (then `KeyError`), a non-empty string raises ValueError, `None`, a number or
@@ -99,6 +103,8 @@ def getDotted : Val → List String → Res Val
   | .cell .none, _ :: _ => throw Err.type
   | .cell (.int _), _ :: _ => throw Err.type
   | .cell (.flt _), _ :: _ => throw Err.type
+  | .tuple [], _ :: _ => throw Err.key                      -- `dict(())` is `{}`
+  | .tuple (.cell (.int _) :: _), _ :: _ => throw Err.type    -- `dict((1, 2))`
   | _, _ :: _ => throw Err.other
 
 /-- `tree_getitem(tree, path)` on a tree of `dictattr` / `Dict` nodes (`dotted = true`; for plain dicts `dotted = false`
@@ -110,7 +116,7 @@ def getItemC (dotted : Bool) : Val → Path → Res Val
     | some v => getItemC dotted v rest
     | none =>
       if dotted && k.contains '.' then
-        match getDotted (.dict kvs) (k.splitOn ".") with
+        match getDotted (.dict kvs) (splitDots k) with
         | .ok v => getItemC dotted v rest
         | .error e => throw e
       else throw Err.key
